@@ -45,7 +45,7 @@ def _ops(depth=0):
     base = [(6, _add()), (1, st.tuples(st.just("dup"), st.integers(0, 5)).map(list))]
     if depth < 3:
         sub = st.deferred(lambda: _ops(depth + 1))
-        base += [(2, st.tuples(st.just("cluster"), st.sampled_from(NAMES + NAMES + ["", 3]), sub,
+        base += [(2, st.tuples(st.just("cluster"), st.sampled_from(NAMES + NAMES + ["0", "1", "2", "0", "1", "", 3]), sub,
                                st.sampled_from(["in", "out"])).map(list)),
                  (2, st.tuples(st.just("index"), st.sampled_from([0, 1, 2, 3, 0, 1, 2, -1, "i"]), sub,
                                st.sampled_from(["in", "out"])).map(list))]
